@@ -170,3 +170,9 @@ func Recover(f func()) (panicked string) {
 	f()
 	return ""
 }
+
+// ReadCryptoRand fills b from the current crypto/rand.Reader.
+func ReadCryptoRand(b []byte) error {
+	_, err := io.ReadFull(cryptorand.Reader, b)
+	return err
+}
